@@ -330,11 +330,15 @@ def r_process_memo(ctx, rule="R-RESET", memo_only=False):
                 uses.append((w.node, "written (`%s`)" % norm_stmt(common.stmt_of(w.node))[:60]))
             for n in ast.walk(fn):
                 if isinstance(n, ast.Name) and n.id == name and isinstance(n.ctx, ast.Load):
-                    par = getattr(n, "_parent", None)
-                    if isinstance(par, ast.Assign) and par.value is n and any(isinstance(t, (ast.Attribute, ast.Subscript)) for t in par.targets):
+                    par, child = getattr(n, "_parent", None), n
+                    while isinstance(par, (ast.IfExp, ast.BoolOp, ast.NamedExpr)) and not (isinstance(par, ast.IfExp) and par.test is child):
+                        par, child = getattr(par, "_parent", None), par          # `x if c else default`, `x or default`: the object itself flows on
+                    if isinstance(par, ast.Assign) and par.value is child and any(isinstance(t, (ast.Attribute, ast.Subscript)) for t in par.targets):
                         uses.append((n, "stored on an object (`%s`)" % norm_stmt(par)[:60]))
                     elif isinstance(par, ast.Return):
                         uses.append((n, "returned to the caller"))
+                    elif isinstance(par, ast.Call) and isinstance(par.func, ast.Attribute) and par.func.attr in effects.CONTAINER_MUTATORS and child in par.args:
+                        uses.append((n, "put into a container (`%s`)" % norm_stmt(common.stmt_of(par))[:60]))
             ctx.ob("R-RESET", "%s::%s::default of `%s`" % (fn._module.rel, qualname(fn), name), not uses,
                    "the default `%s` is only read" % src(dflt) if not uses else
                    "the default `%s` is evaluated once per process and is %s: what one call (one model) leaves in it is seen by the next"
